@@ -318,3 +318,13 @@ Proof.
   intros Hl. unfold GBC_encode.
   repeat match goal with |- context [if ?c then _ else _] => destruct c eqn:?; [| reflexivity] end. exfalso. lia.
 Qed.
+
+(* ---- sequence number counter ------------------------------------------------------------------------------------------- *)
+Lemma src_next_sn sn : Router_get_sequence_number sn = (next_sn sn, next_sn sn).
+Proof. reflexivity. Qed.
+
+Lemma src_next_sn_fits sn : let '(r, c) := Router_get_sequence_number sn in r = c /\ 0 <= r < 65535 /\ fits 16 r = true.
+Proof.
+  unfold Router_get_sequence_number. pose proof (Z.mod_pos_bound (sn + 1) 65535 ltac:(lia)).
+  split; [reflexivity|]. split; [lia|]. apply fits_spec. pow2. lia.
+Qed.
